@@ -28,6 +28,79 @@ _ROOTFIX = ("            try:\n                # the root of the block hash tree
        "                self.block_hash_tree.set_hashes(bh)\n")
 _ROOTUNFIX = "            try:\n                self.block_hash_tree.set_hashes(bh)\n"
 
+# The round-5 refactor of the share collection (C45.5): _verify_server_shares and _check_server_shares merged into one
+# _examine_server_shares driven by self._verify, collect() written with comprehensions, start() a list comprehension.
+# MERGE(good) gives the edits with the line that computes the good set left open.
+_GB_OLD = ("            bucketdict, success = result\n\n"
+           "            shareverds = []\n"
+           "            for (sharenum, bucket) in list(bucketdict.items()):\n"
+           "                d = self._download_and_verify(s, sharenum, bucket)\n"
+           "                shareverds.append(d)\n\n"
+           "            dl = deferredutil.gatherResults(shareverds)\n\n"
+           "            def collect(results):\n"
+           "                verified = set()\n"
+           "                corrupt = set()\n"
+           "                incompatible = set()\n"
+           "                for succ, sharenum, whynot in results:\n"
+           "                    if succ:\n"
+           "                        verified.add(sharenum)\n"
+           "                    else:\n"
+           "                        if whynot == 'corrupt':\n"
+           "                            corrupt.add(sharenum)\n"
+           "                        elif whynot == 'incompatible':\n"
+           "                            incompatible.add(sharenum)\n"
+           "                return (verified, s, corrupt, incompatible, success)\n")
+_GB_NEW = ("            bucketdict, responded = result\n\n"
+           "            if %(flag)s:\n"
+           "                dl = deferredutil.gatherResults(\n"
+           "                    [self._download_and_verify(s, sharenum, bucket)\n"
+           "                     for (sharenum, bucket) in list(bucketdict.items())])\n"
+           "            else:\n"
+           "                dl = defer.succeed([])\n\n"
+           "            def collect(results):\n"
+           "                rejected = dict((sharenum, whynot)\n"
+           "                                for (succ, sharenum, whynot) in results\n"
+           "                                if not succ)\n"
+           "                corrupt = set(sharenum\n"
+           "                              for (sharenum, whynot) in rejected.items()\n"
+           "                              if whynot == 'corrupt')\n"
+           "                incompatible = set(sharenum\n"
+           "                                   for (sharenum, whynot) in rejected.items()\n"
+           "                                   if whynot == 'incompatible')\n"
+           "%(good)s"
+           "                return (good, s, corrupt, incompatible, responded)\n")
+_CSS_OLD = ("    def _check_server_shares(self, s):\n"
+            "        \"\"\"Return a deferred which eventually fires with a tuple of\n"
+            "        (set(sharenum), server, set(corrupt), set(incompatible),\n"
+            "        responded) showing all the shares claimed to be served by this\n"
+            "        server. In case the server is disconnected then it fires with\n"
+            "        (set(), server, set(), set(), False) (a server disconnecting\n"
+            "        when we ask it for buckets is the same, for our purposes, as a\n"
+            "        server that says it has none, except that we want to track and\n"
+            "        report whether or not each server responded.)\n\n"
+            "        see also _verify_server_shares()\n"
+            "        \"\"\"\n"
+            "        def _curry_empty_corrupted(res):\n"
+            "            buckets, responded = res\n"
+            "            return (set(buckets), s, set(), set(), responded)\n"
+            "        d = self._get_buckets(s, self._verifycap.get_storage_index())\n"
+            "        d.addCallback(_curry_empty_corrupted)\n"
+            "        return d\n\n")
+_START_OLD = ("        ds = []\n"
+              "        if self._verify:\n"
+              "            for s in self._servers:\n"
+              "                ds.append(self._verify_server_shares(s))\n"
+              "        else:\n"
+              "            for s in self._servers:\n"
+              "                ds.append(self._check_server_shares(s))\n\n")
+_START_NEW = "        ds = [self._examine_server_shares(s) for s in self._servers]\n"
+
+
+def MERGE(mid, good, expect, flag="self._verify"):
+    return M(mid, CK, "    def _verify_server_shares(self, s):\n", "    def _examine_server_shares(self, s):\n", expect,
+             edits=[(CK, _GB_OLD, _GB_NEW % {"good": good, "flag": flag}), (CK, _CSS_OLD, ""), (CK, _START_OLD, _START_NEW)])
+
+
 MUTANTS = [
     # -- C45.1 UEB hash gate
     M("ueb-compare-wrong-field", CK,
@@ -128,6 +201,21 @@ MUTANTS = [
       "                verifiedshares.setdefault(sharenum, set()).add(server)\n", "C45.5"),
     M("verify-flag-not-stored", CK,
       "        self._verify = verify # bool", "        self._verify = bool(add_lease) # bool", "C45.5"),
+    # the seeded slip: good = everything offered minus corrupt minus incompatible ('disconnect' / 'failure' shares stay in)
+    MERGE("merged-good-by-subtraction", "                good = set(bucketdict) - corrupt - incompatible\n", "C45.5"),
+    MERGE("merged-good-minus-corrupt-only", "                good = set(bucketdict).difference(corrupt)\n", "C45.5"),
+    MERGE("merged-verify-flag-inverted", "                good = set(bucketdict) - set(rejected)\n", "C45.5", flag="not self._verify"),
+    # the same effect in the unrefactored shape: the verified set is what is left over
+    M("verified-by-exclusion", CK,
+      "                    if succ:\n                        verified.add(sharenum)\n                    else:\n"
+      "                        if whynot == 'corrupt':\n                            corrupt.add(sharenum)\n"
+      "                        elif whynot == 'incompatible':\n                            incompatible.add(sharenum)\n",
+      "                    if whynot == 'corrupt':\n                        corrupt.add(sharenum)\n"
+      "                    elif whynot == 'incompatible':\n                        incompatible.add(sharenum)\n"
+      "                    else:\n                        verified.add(sharenum)\n", "C45.5"),
+    M("verifies-with-another-shares-bucket", CK,
+      "                d = self._download_and_verify(s, sharenum, bucket)\n",
+      "                d = self._download_and_verify(s, sharenum, bucketdict[min(bucketdict)])\n", "C45.5"),
     # -- C45.6 verdict conditions
     M("healthy-with-k-shares", CK,
       "        if len(verifiedshares) == self._verifycap.total_shares:",
@@ -434,6 +522,24 @@ MUTANTS = [
       "            if f.check(layout.ShareVersionIncompatible):\n                return (False, sharenum, 'incompatible')\n"
       "            elif f.check(DeadReferenceError):\n                return (False, sharenum, 'disconnect')\n"
       "            elif f.check(RemoteException):\n                return (False, sharenum, 'failure')\n", None),
+    # the same refactor done faithfully: every non-success verdict is subtracted / the good set is built from the successes
+    MERGE("benign-merged-minus-all-rejected", "                good = set(bucketdict) - set(rejected)\n", None),
+    MERGE("benign-merged-good-from-successes",
+          "                if self._verify:\n"
+          "                    good = set(sharenum for (succ, sharenum, whynot) in results if succ)\n"
+          "                else:\n"
+          "                    good = set(bucketdict)\n", None),
+    M("benign-collect-comprehensions", CK,
+      "                verified = set()\n                corrupt = set()\n                incompatible = set()\n"
+      "                for succ, sharenum, whynot in results:\n"
+      "                    if succ:\n                        verified.add(sharenum)\n                    else:\n"
+      "                        if whynot == 'corrupt':\n                            corrupt.add(sharenum)\n"
+      "                        elif whynot == 'incompatible':\n                            incompatible.add(sharenum)\n",
+      "                verified = {n for (ok, n, why) in results if ok}\n"
+      "                corrupt = {n for (ok, n, why) in results if not ok and why == 'corrupt'}\n"
+      "                incompatible = {n for (ok, n, why) in results if not ok and why == 'incompatible'}\n", None),
     # -- vanished anchor
     M("vanish-got-data", CK, "    def _got_data(self, results, blocknum):", "    def _got_dataX(self, results, blocknum):", "ANALYSIS-ERROR"),
+    M("vanish-get-buckets", CK, "    def _get_buckets(self, s, storageindex):", "    def _get_buckets_(self, s, storageindex):",
+      "ANALYSIS-ERROR"),
 ]
